@@ -793,8 +793,15 @@ def rule_replay_loops(ctx, rep: Report, rid="I5"):
     }
     for label, (n, wmap) in shapes.items():
         holes = [i for i in range(n) if i not in wmap]
-        gen = _replay(ctx, "generate_wrapper", n, wmap)
-        mex = _replay(ctx, "mex_function", n, wmap)
+        try:
+            gen = _replay(ctx, "generate_wrapper", n, wmap)
+            mex = _replay(ctx, "mex_function", n, wmap)
+        except AnalysisError as ex:
+            # the loops are written with constructs the abstract replay does not model: the concrete run (I14) decides, if it could be made
+            if dispatch_table_verdict(ctx) is not None:
+                rep.add(rid, f"{label}:abstract replay", True, f"not modelled ({ex}); decided by the concrete run of mex_function (I14)", f"{ci.mod.rel}:0", nontrivial=False)
+                continue
+            raise
         cases = {}
         dup = []
         for ev in mex:
@@ -1295,14 +1302,15 @@ def _emitter_samples(ctx):
     EO, EK = ("m", "Mode", ("ns", "Other"), None), ("m", "Mode", ("ns", "K"), None)
     statics += [decl("StaticMethod", "spick", [EO], ret="void")]
     meths = [decl("Method", "at", [("i", "size_t", (), None)]), decl("Method", "size", [], ret="size_t"), decl("Method", "span", [D], ret=("double", "size_t")),
-             decl("Method", "pick", [EO], ret="void"), decl("Method", "own", [EK], ret="void"),
+             decl("Method", "pick", [EO], ret="void"), decl("Method", "own", [EK], ret="void"), decl("Method", "step_2", [D]),
              decl("Method", "tag", [("label", "string", (), None, {"is_const": "const", "is_ref": "&"}), ("plain", "string", (), None)], ret="void"),
              decl("Method", "at", [("i", "size_t", (), None), ("j", "size_t", (), None), ("c", "double", (), "0.0")]), decl("Method", "at", [])]
     # (the first declaration is repeated, as happens when two interface files of a module share a helper: the list keeps both)
     funcs = [decl("GlobalFunction", "scale", [D], parent=nsn), decl("GlobalFunction", "scale", [D], parent=nsn),
              decl("GlobalFunction", "scale", [D, ("k", "K", ("ns",), None), ("w", "double", (), "1.0")], parent=nsn),
              decl("GlobalFunction", "scale", [("label", "string", (), None)], parent=nsn),
-             decl("GlobalFunction", "halves", [D], ret=("double", "double"), parent=nsn), decl("GlobalFunction", "clear", [], ret="void", parent=nsn)]
+             decl("GlobalFunction", "halves", [D], ret=("double", "double"), parent=nsn), decl("GlobalFunction", "clear", [], ret="void", parent=nsn),
+             decl("GlobalFunction", "norm_2", [D], parent=nsn)]
     cls["static_methods"] = statics
     cls["methods"] = meths
 
@@ -2055,3 +2063,71 @@ def base_handle_verdict(ctx):
                     return None
         return probs if ran >= 8 else None
     return ctx._get("base_handle_verdict", mk)
+
+
+
+# ------------------------------------------------------------------------------------------ I14 the dispatch table by evaluation
+def dispatch_table_verdict(ctx):
+    """mex_function run (the analyser's own interpreter) on the id map that running the .m emitters on the sample declarations
+    left behind - a virtual class (its reserved id included), methods, static methods, constructors and free functions, among
+    them names in which an underscore is followed by a digit (`step_2`, `norm_2`): the case labels are 0..n-1, each once; every
+    case runs the routine whose name ends in that very id (the .m files pass the id the routine is named with); every routine
+    registered in the map is run by exactly one case.  Returns the differences, or None where the interpreter cannot follow."""
+    def mk():
+        from .rules_matlab import _PathEval, _Raised, mini_exec, program_classes
+        ci, prog = mw(ctx)
+        methods = _all_methods(prog, ci)
+        classes = program_classes(prog, ["ArgumentList", "Argument", "MatlabWrapper", "Typename", "Type", "ReturnType"])
+        me, cls, statics, meths, funcs = _emitter_samples(ctx)
+        cls["is_virtual"] = True
+        me["wrapper_id"] = 0
+        try:
+            gm = prog.method("MatlabWrapper", "_group_methods")
+            groups = mini_exec(gm, dict(zip(func_params(gm), [me, list(funcs)])), budget=60000, methods=methods, classes=classes)
+            for which, argv in [("wrap_class_constructors", [me, "ns", cls, "", list(cls["ctors"]), True]), ("wrap_static_methods", [me, "ns", cls, [False]]),
+                                ("wrap_class_methods", [me, "ns", cls, list(meths), [False]])] + [("wrap_global_function", [me, g_]) for g_ in groups]:
+                fn = prog.method("MatlabWrapper", which)
+                ps = func_params(fn)
+                if len(ps) != len(argv):
+                    return None
+                mini_exec(fn, _with_templates(ctx, dict(zip(ps, argv))), budget=150000, methods=methods, classes=classes)
+            wm = me.get("wrapper_map")
+            n_ids = me.get("wrapper_id")
+            mf = prog.method("MatlabWrapper", "mex_function")
+            text = mini_exec(mf, _with_templates(ctx, {func_params(mf)[0]: me}), budget=300000, methods=methods, classes=classes)
+        except (_PathEval.Unknown, _Raised, TypeError, KeyError, IndexError, AttributeError, ValueError):
+            return None
+        if not isinstance(text, str) or not isinstance(wm, dict) or not isinstance(n_ids, int) or n_ids < 20:
+            return None
+        cases = re.findall(r"case\s+(\d+)\s*:\s*(\w+)\s*\(", text)
+        probs = []
+        labels = [int(a) for a, _ in cases]
+        if sorted(labels) != list(range(n_ids)):
+            dup = sorted({x for x in labels if labels.count(x) > 1})
+            missing = sorted(set(range(n_ids)) - set(labels))
+            probs.append(f"ids 0..{n_ids - 1} are allocated; the switch has duplicate labels {dup[:4]} and no case for {missing[:4]}")
+        for a, rname in cases:
+            m_ = re.search(r"_(\d+)$", rname)
+            if not m_ or int(m_.group(1)) != int(a):
+                probs.append(f"case {a} runs `{rname}`, a routine the .m files reach under another id")
+        called = [r for _, r in cases]
+        for k, ent in sorted(wm.items()):
+            rn = ent[3] if isinstance(ent, (list, tuple)) and len(ent) > 3 and isinstance(ent[3], str) else None      # (namespace, class, role / name, routine, overload)
+            if rn is not None and called.count(rn) != 1:
+                probs.append(f"the routine `{rn}` registered under id {k} is run by {called.count(rn)} case(s)")
+        return probs
+    return ctx._get("dispatch_table_verdict", mk)
+
+
+def rule_dispatch_table_by_evaluation(ctx, rep: Report, rid="I14"):
+    """See dispatch_table_verdict."""
+    ci, prog = mw(ctx)
+    mf = prog.method("MatlabWrapper", "mex_function")
+    loc = f"{ci.mod.rel}:{mf.lineno}"
+    v = dispatch_table_verdict(ctx)
+    rep.units["dispatch_table_evaluated"] = v is not None
+    if v is None:
+        rep.add(rid, "dispatch table evaluated on the sample id map", True, "not evaluable; I5 decides by abstract replay", loc, nontrivial=False)
+        return
+    rep.add(rid, "dispatch table:labels 0..n-1 once each, every case runs the routine named with its id, every routine has one case", not v,
+            f"mex_function run on the id map of the sample declarations: {v[:3]}: a call from a .m file reaches another routine than the one generated for it, or none", loc)
